@@ -23,8 +23,8 @@ REGISTRY = {
                 technique='deductive (pyvc+z3) for lattice cost, mask and input rejection; connectivity preservation bounded only'),
     'C17': dict(level='proof', bounded='checks.bounded.C17',
                 pyvc=[(UTL, k, None, None) for k in ['threshold_absolute', 'binarize', 'invert', 'normalize', 'teachers_round', 'threshold_proportional']], trusted=PYVC_TRUSTED,
-                assumptions=['threshold_proportional: diagonal, symmetry, kept-entries and copy clauses proved; the exact-count and strongest-kept clauses and the weight_conversion dispatch are bounded only'],
-                technique='deductive (pyvc+z3) for threshold_absolute, binarize, invert, normalize, teachers_round incl. copy-flag identity; bounded stand-in for threshold_proportional, weight_conversion'),    'C13': dict(level='proof', bounded='checks.bounded.C13', extra_proved=['checks.static_proved.c13'],
+                assumptions=['threshold_proportional: all clauses proved for non-negative weights (count via the Lean-proved lemma that k pairwise distinct cells holding 1 sum to k; the symmetric branch via tsum(S) = 2 tsum(A) for S = A + A^T); callee contract of teachers_round proved separately; np.argsort contract (a permutation sorting ascending) and np.allclose (true for exactly symmetric input) assumed', 'the weight_conversion dispatch is bounded only'],
+                technique='deductive (pyvc+z3+counting lemma) for threshold_absolute, threshold_proportional, binarize, invert, normalize, teachers_round incl. copy-flag identity; bounded stand-in for the weight_conversion dispatch'),    'C13': dict(level='proof', bounded='checks.bounded.C13', extra_proved=['checks.static_proved.c13'],
                 trusted=['engine/pyframe/frame.py (may-alias analysis) and its fresh/view/mutating tables for numpy calls', 'numpy/scipy functions not listed as mutating do not write to their arguments',
                          'no mutation through eval/exec/C extensions; decorators transparent'],
                 technique='static frame analysis (flow-sensitive may-alias, modular callee summaries): one frame obligation per mutation site in every public function; dynamic snapshot cross-check (bounded)'),
